@@ -37,6 +37,8 @@ pub enum OpKind {
     ChanSend,
     ChanTryRecv,
     ChanRecv,
+    /// A read of the channel's occupancy (`len`, `is_empty`, `is_full`).
+    ChanLen,
     ThreadSpawn,
     ThreadJoin,
     ThreadYield,
@@ -1072,16 +1074,31 @@ pub mod channel {
             res
         }
 
+        #[track_caller]
         pub fn is_empty(&self) -> bool {
-            self.inner.is_empty() && self.meta.slot_len() == 0
+            let loc = Location::caller();
+            let go = point(OpKind::ChanLen, self.addr(), None, Wait::No, loc);
+            let r = self.inner.is_empty() && self.meta.slot_len() == 0;
+            done(go, OpKind::ChanLen, self.addr(), None, true, loc);
+            r
         }
 
+        #[track_caller]
         pub fn is_full(&self) -> bool {
-            self.inner.is_full()
+            let loc = Location::caller();
+            let go = point(OpKind::ChanLen, self.addr(), None, Wait::No, loc);
+            let r = self.inner.is_full();
+            done(go, OpKind::ChanLen, self.addr(), None, true, loc);
+            r
         }
 
+        #[track_caller]
         pub fn len(&self) -> usize {
-            self.inner.len() + self.meta.slot_len()
+            let loc = Location::caller();
+            let go = point(OpKind::ChanLen, self.addr(), None, Wait::No, loc);
+            let r = self.inner.len() + self.meta.slot_len();
+            done(go, OpKind::ChanLen, self.addr(), None, true, loc);
+            r
         }
 
         pub fn capacity(&self) -> Option<usize> {
@@ -1143,16 +1160,31 @@ pub mod channel {
             TryIter { receiver: self }
         }
 
+        #[track_caller]
         pub fn is_empty(&self) -> bool {
-            self.inner.is_empty() && self.meta.slot_len() == 0
+            let loc = Location::caller();
+            let go = point(OpKind::ChanLen, self.addr(), None, Wait::No, loc);
+            let r = self.inner.is_empty() && self.meta.slot_len() == 0;
+            done(go, OpKind::ChanLen, self.addr(), None, true, loc);
+            r
         }
 
+        #[track_caller]
         pub fn is_full(&self) -> bool {
-            self.inner.is_full()
+            let loc = Location::caller();
+            let go = point(OpKind::ChanLen, self.addr(), None, Wait::No, loc);
+            let r = self.inner.is_full();
+            done(go, OpKind::ChanLen, self.addr(), None, true, loc);
+            r
         }
 
+        #[track_caller]
         pub fn len(&self) -> usize {
-            self.inner.len() + self.meta.slot_len()
+            let loc = Location::caller();
+            let go = point(OpKind::ChanLen, self.addr(), None, Wait::No, loc);
+            let r = self.inner.len() + self.meta.slot_len();
+            done(go, OpKind::ChanLen, self.addr(), None, true, loc);
+            r
         }
 
         pub fn capacity(&self) -> Option<usize> {
